@@ -63,6 +63,9 @@ def sinks_strategy(prog, classes=VALID, max_sinks=3, allow_repeat=True):
                 s["shard_region"] = True  # the target is sharded; the region is aligned to its shards
             if cls == "existing-dtype" and (v.dtype.kind == "c" and v.dtype.itemsize == 16):
                 s["cls"] = cls = "existing-same"
+            if cls == "existing-dtype":
+                # a narrower target (float -> int32, values truncated on write): the source itself must keep its own values
+                s["lossy"] = bool(v.dtype.kind == "f" and v.size > 0 and np.isfinite(v).all() and np.abs(v).max() < 2**30 and draw(st.booleans()))
             if cls == "existing-larger":
                 # an existing target that is larger than the source along some axes, no region given
                 if v.ndim == 0 or v.size == 0:
@@ -249,7 +252,7 @@ def build_sinks(sinks, arrs, ctx: SinkCtx, spec, vals=None, compute=False, execu
             if cls == "existing-dtype":
                 # an existing target of another (wider) dtype: values are cast on write, the source itself is unaffected
                 kd, isz = np.dtype(src.dtype).kind, np.dtype(src.dtype).itemsize
-                tdtype = np.dtype({"b": "int8", "i": "float64" if isz == 8 else "int64", "u": "int64" if isz < 8 else "float64", "f": "float64" if isz < 8 else "complex128", "c": "complex128"}[kd])
+                tdtype = np.dtype("int32") if s.get("lossy") else np.dtype({"b": "int8", "i": "float64" if isz == 8 else "int64", "u": "int64" if isz < 8 else "float64", "f": "float64" if isz < 8 else "complex128", "c": "complex128"}[kd])
             z = zarr.create_array(ts, name=path, shape=tshape, dtype=tdtype, chunks=tuple(max(1, c) for c in tchunks) if tshape else (), **kw)
             before = _sentinel(tshape, tdtype)
             if before.size:
